@@ -27,6 +27,18 @@ struct item_error : std::exception {
 // per thread: in the scheduled kinds every operation has its own thread, and only the hand-over done by the
 // operation that armed it may throw
 static thread_local bool g_throw_on_move = false;
+// C10 (`lq` / `slq`): hand-over faults.  While armed with (g, n) the item constructions from another item (move or copy:
+// "hand-overs") that the calling thread performs are counted, and the hand-overs number g .. g+n-1 throw - before anything
+// is moved or copied.  Armed by the operation (`popthrow g [n]`, `cothrow g [n]`, `pushmv v g [n]`, `upushthrow c [g [n]]`)
+// for the duration of the one call into the queue.
+static thread_local int g_ho_count = 0, g_ho_from = 0, g_ho_n = 0;
+inline void ho_set(int g, int n) { g_ho_count = 0; g_ho_from = g; g_ho_n = n; }
+inline void ho_clear() { g_ho_count = 0; g_ho_from = 0; g_ho_n = 0; }
+struct ho_arm {
+    ho_arm(int g, int n) { ho_set(g, n); }
+    ~ho_arm() { ho_clear(); }
+};
+inline void ho_check();
 struct item_t {
     static constexpr int GOOD = 0x600D, DEAD = 0xDEAD;
     std::unique_ptr<int> res;
@@ -34,7 +46,7 @@ struct item_t {
     int magic;
     item_t(int v) : res(v < 0 ? throw item_error() : new int(v)), val(v), magic(GOOD) {}
     // the hand-over of an item (move construction) throws when armed (`popthrow`), before anything is moved
-    static bool check_throw() { if (g_throw_on_move) { g_throw_on_move = false; throw item_error(); } return true; }
+    static bool check_throw() { if (g_throw_on_move) { g_throw_on_move = false; throw item_error(); } ho_check(); return true; }
     item_t(item_t &&o) : res((check_throw(), std::move(o.res))), val(o.val), magic(o.magic) {}
     item_t &operator=(item_t &&o) noexcept { res = std::move(o.res); val = o.val; magic = o.magic; return *this; }
     item_t(const item_t &) = delete;
@@ -47,6 +59,37 @@ struct item_t {
     int get() const { return (magic == GOOD && res && *res == val) ? val : -666; }
 };
 inline std::ostream &operator<<(std::ostream &os, const item_t &it) { return os << it.get(); }
+inline void ho_check() {
+    if (g_ho_n > 0) {
+        ++g_ho_count;
+        if (g_ho_count >= g_ho_from && g_ho_count < g_ho_from + g_ho_n) throw item_error();
+    }
+}
+// The copy-only item type (`lq <limit> cp`, `slq <limit> cp`): user-declared copy constructor, hence no move constructor -
+// every std::move of the library copies, the source stays intact (a hand-over that throws leaves a live source behind, a
+// "moved" pair still owns its item).  Deep copy of the heap resource; the copy of a dead item is dead (-666).
+struct citem_t {
+    static constexpr int GOOD = 0x600D, DEAD = 0xDEAD;
+    std::unique_ptr<int> res;
+    int val;
+    int magic;
+    citem_t(int v) : res(v < 0 ? throw item_error() : new int(v)), val(v), magic(GOOD) {}
+    citem_t(const citem_t &o) : res((ho_check(), new int(o.get()))), val(o.get()), magic(GOOD) {}
+    citem_t &operator=(const citem_t &o) { if (this != &o) { res.reset(new int(o.get())); val = o.get(); magic = GOOD; } return *this; }
+    ~citem_t() {
+        *(volatile int *)&magic = DEAD;
+        *(volatile int *)&val = -666;
+    }
+    int get() const { return (magic == GOOD && res && *res == val) ? val : -666; }
+};
+inline std::ostream &operator<<(std::ostream &os, const citem_t &it) { return os << it.get(); }
+// a push future of the bounded queue can be failed with the exception of its own item (the transfer into the queue threw)
+inline std::string lq_push_outcome(future<void> &f) {
+    if (!f.ready()) return "pending";
+    try { f.value(); return "ok"; }
+    catch (const item_error &) { return "itemerr"; }
+    catch (...) { return vh::outcome(f); }
+}
 
 // The item type of kind `q vec`: a std::vector<int>, i.e. a type with an initializer_list constructor, filled through the
 // emplace-style push(k, v) = k copies of v (`pushn k v`; `push v` is push(1, v)).  Printed as k*1000+v, -777 when it is
@@ -63,10 +106,26 @@ inline std::ostream &operator<<(std::ostream &os, const vec_t &it) { return os <
 template <typename T> inline constexpr bool is_vec_v = std::is_same_v<T, vec_t>;
 
 // unblock_pop is protected in limited_queue (protected base); reach it through a derived class
-struct lq_t : limited_queue<item_t> {
-    using limited_queue<item_t>::limited_queue;
+template <typename T, typename L>
+struct lq_any : limited_queue<T, primitives::std_queue, primitives::std_queue, primitives::std_queue, L> {
+    using base = limited_queue<T, primitives::std_queue, primitives::std_queue, primitives::std_queue, L>;
+    using base::base;
     suspend_point<bool> upop(std::exception_ptr e) { return this->unblock_pop(e); }
+    // asked from another thread (see q_t::lock_is_free); primitives::no_lock: always free
+    bool lock_is_free() {
+        bool ok = false;
+        std::thread t([&] {
+            for (int i = 0; i < 5 && !ok; ++i)
+                if (this->_mx.try_lock()) { this->_mx.unlock(); ok = true; }
+        });
+        t.join();
+        return ok;
+    }
 };
+using lq_t = lq_any<item_t, std::mutex>;
+// limited_queue with primitives::no_lock (single-threaded use is the contract of no_lock)
+using lq_nl_t = lq_any<item_t, primitives::no_lock>;
+using lq_cp_t = lq_any<citem_t, std::mutex>;
 
 // queue<T, Queue, CoroQueue, Lock> (any configuration) with a way to ask whether its lock is free
 template <typename T, template <typename> class QS = primitives::std_queue,
@@ -84,22 +143,97 @@ struct q_t : queue<T, QS, CS, L> {
         return ok;
     }
 };
-// limited_queue with primitives::no_lock (single-threaded use is the contract of no_lock)
-struct lq_nl_t : limited_queue<item_t, primitives::std_queue, primitives::std_queue, primitives::std_queue, primitives::no_lock> {
-    using base = limited_queue<item_t, primitives::std_queue, primitives::std_queue, primitives::std_queue, primitives::no_lock>;
-    using base::base;
-    suspend_point<bool> upop(std::exception_ptr e) { return this->unblock_pop(e); }
+// ---------------------------------------------------------------------------------------------
+// C10 sequential: limited_queue<item_t | citem_t>.  Pops are future based (`pop`, `popthrow g [n]`) or issued by a coroutine
+// that co_awaits the future (`cothrow g [n]`); pop and push ids are given in the order of the calls that returned a future.
+// ---------------------------------------------------------------------------------------------
+template <typename T>
+struct lq_pop {
+    std::unique_ptr<future<T>> f;   // future-based pop
+    bool coro = false;              // issued by a coroutine
+    bool done = false;              // coroutine pop: outcome recorded
+    bool reported = false;
+    std::string out;
 };
+
+// `cothrow g n`: a coroutine that calls pop() while the hand-overs g .. g+n-1 of that call throw, and co_awaits the future
+template <typename Q, typename T>
+async<void> lq_thrower(Q &q, std::deque<lq_pop<T>> &pops, int g, int n, std::shared_ptr<std::string> res) {
+    std::size_t id = pops.size();
+    pops.emplace_back();
+    pops[id].coro = true;
+    std::string out;
+    try {
+        ho_set(g, n);
+        future<T> f = q.pop();          // throws here when the hand-over of the delivered item throws
+        ho_clear();
+        *res = "pop#" + std::to_string(id);
+        T &v = co_await f;
+        out = "v:" + std::to_string(v.get());
+    } catch (const item_error &) {
+        ho_clear();
+        if (res->empty()) {
+            pops.pop_back();
+            *res = "threw";
+            co_return;
+        }
+        out = "itemerr";
+    } catch (const await_canceled_exception &) {
+        out = "canceled";
+    } catch (const test_exc &e) {
+        out = "exc:" + std::to_string(e.code);
+    } catch (...) {
+        out = "other";
+    }
+    pops[id].out = out;
+    pops[id].done = true;
+}
 
 template <typename Q, typename T, bool limited>
 void run_case(std::istream &in, std::size_t limit) {
-    std::unique_ptr<Q> q;
-    if constexpr (limited) q.reset(new Q(limit)); else q.reset(new Q());
-    vh::fut_set<T> pops("pop");
-    vh::fut_set<void> pushes("push");
+    static_assert(limited, "run_case drives limited_queue only");
+    std::deque<lq_pop<T>> pops;         // outlives the queue: parked coroutines record `canceled` when it dies
+    std::deque<std::pair<std::unique_ptr<future<void>>, bool>> pushes;   // (future, reported)
+    std::unique_ptr<Q> q(new Q(limit));
+    alarm(10);      // an operation that never returns (lock left locked) must not stall the whole check
     std::vector<std::string> evs;
     std::string line;
-    auto poll = [&] { pops.poll(evs); pushes.poll(evs); };
+    auto poll = [&] {
+        for (std::size_t i = 0; i < pops.size(); ++i) {
+            auto &r = pops[i];
+            if (r.reported) continue;
+            if (r.coro ? r.done : r.f->ready()) {
+                r.reported = true;
+                evs.push_back("pop#" + std::to_string(i) + "=" + (r.coro ? r.out : vh::outcome(*r.f)));
+            }
+        }
+        for (std::size_t i = 0; i < pushes.size(); ++i)
+            if (!pushes[i].second && pushes[i].first->ready()) {
+                pushes[i].second = true;
+                evs.push_back("push#" + std::to_string(i) + "=" + lq_push_outcome(*pushes[i].first));
+            }
+    };
+    auto pop_now = [&](std::size_t id) {
+        auto &r = pops[id];
+        std::string st = r.coro ? (r.done ? r.out : std::string("pending")) : vh::outcome(*r.f);
+        if (st != "pending") r.reported = true;
+        return st;
+    };
+    auto push_now = [&](std::size_t id) {
+        std::string st = lq_push_outcome(*pushes[id].first);
+        if (st != "pending") pushes[id].second = true;
+        return st;
+    };
+    // after an operation threw: the lock must have been released during unwinding
+    auto check_lock = [&](const std::string &head, const char *what) {
+        if (!q->lock_is_free()) {
+            std::cout << head << "\n";
+            fflush(stdout);
+            fprintf(stderr, "DEADLOCK: %s left the queue's lock locked when it threw\n", what);
+            _exit(42);
+        }
+    };
+    auto arg = [](const std::vector<std::string> &w, std::size_t i, int dflt) { return w.size() > i ? atoi(w[i].c_str()) : dflt; };
     while (std::getline(in, line)) {
         auto w = vh::split(line);
         if (w.empty()) continue;
@@ -108,35 +242,73 @@ void run_case(std::istream &in, std::size_t limit) {
             q.reset();
             poll();
             vh::emit("end", evs);
+            alarm(0);
             return;
-        } else if (w[0] == "push") {
-            int v = w.size() > 1 ? atoi(w[1].c_str()) : 0;
-            if constexpr (limited) {
-                std::size_t id = pushes.add([&] { return q->push(v); });
-                head << "push#" << id << " " << pushes.now(id);
-            } else if constexpr (std::is_void_v<T>) {
-                bool r = q->push();
-                head << "push woke=" << r;
-            } else {
-                bool r = q->push(v);
-                head << "push woke=" << r;
+        } else if (w[0] == "push" || (w[0] == "pushmv" && w.size() > 2)) {
+            // `pushmv v g [n]`: a push during which the hand-overs g .. g+n-1 of the item throw
+            int v = arg(w, 1, 0);
+            bool mv = w[0] == "pushmv";
+            try {
+                ho_arm a(mv ? arg(w, 2, 1) : 0, mv ? arg(w, 3, 1) : 0);
+                std::unique_ptr<future<void>> f(new future<void>([&] { return q->push(v); }));
+                pushes.emplace_back(std::move(f), false);
+                std::size_t id = pushes.size() - 1;
+                head << "push#" << id << " " << push_now(id);
+            } catch (const item_error &) {
+                head << "pushmv threw";
+                check_lock(head.str(), "push()");
             }
-        } else if (w[0] == "pop") {
-            std::size_t id = pops.add([&] { return q->pop(); });
-            head << "pop#" << id << " " << pops.now(id);
+        } else if (w[0] == "pushthrow") {
+            // an item that refuses to be constructed: push() throws, no future; a waiting pop whose promise it had taken
+            // completes as canceled
+            try {
+                std::unique_ptr<future<void>> f(new future<void>([&] { return q->push(-1); }));
+                pushes.emplace_back(std::move(f), false);
+                std::size_t id = pushes.size() - 1;
+                head << "pushthrow nothrow push#" << id << " " << push_now(id);
+            } catch (const item_error &) {
+                head << "pushthrow threw";
+                check_lock(head.str(), "push()");
+            }
+        } else if (w[0] == "pop" || w[0] == "popthrow") {
+            // `popthrow g [n]`: a pop() during which the hand-overs g .. g+n-1 throw
+            bool th = w[0] == "popthrow";
+            std::size_t id = pops.size();
+            pops.emplace_back();
+            try {
+                ho_arm a(th ? arg(w, 1, 1) : 0, th ? arg(w, 2, 1) : 0);
+                pops[id].f.reset(new future<T>([&] { return q->pop(); }));
+                head << "pop#" << id << " " << pop_now(id);
+            } catch (const item_error &) {
+                pops.pop_back();
+                head << "popthrow threw";
+                check_lock(head.str(), "pop()");
+            }
+        } else if (w[0] == "cothrow") {
+            auto res = std::make_shared<std::string>();
+            lq_thrower<Q, T>(*q, pops, arg(w, 1, 1), arg(w, 2, 1), res).detach();
+            if (*res == "threw") {
+                head << "cothrow threw";
+                check_lock(head.str(), "pop()");
+            } else {
+                std::size_t id = (std::size_t)atoi(res->c_str() + 4);
+                head << *res << " " << pop_now(id);
+            }
         } else if (w[0] == "upop") {
-            int c = atoi(w[1].c_str());
-            bool r;
-            if constexpr (limited) r = q->upop(std::make_exception_ptr(test_exc(c)));
-            else r = q->unblock_pop(std::make_exception_ptr(test_exc(c)));
+            int c = arg(w, 1, 0);
+            bool r = q->upop(std::make_exception_ptr(test_exc(c)));
             head << "upop " << r;
-        } else if (w[0] == "upush") {
-            int c = atoi(w[1].c_str());
-            if constexpr (limited) {
+        } else if (w[0] == "upush" || w[0] == "upushthrow") {
+            // `upushthrow c [g [n]]`: unblock_push during which the hand-overs g .. g+n-1 throw
+            int c = arg(w, 1, 0);
+            bool th = w[0] == "upushthrow";
+            try {
+                ho_arm a(th ? arg(w, 2, 1) : 0, th ? arg(w, 3, 1) : 0);
                 bool r = q->unblock_push(std::make_exception_ptr(test_exc(c)));
                 head << "upush " << r;
-            } else {
-                head << "upush n/a";
+            } catch (const item_error &) {
+                head << "upushthrow threw";
+                check_lock(head.str(), "unblock_push()");
             }
         } else if (w[0] == "size") {
             head << "size " << q->size();
@@ -153,6 +325,7 @@ void run_case(std::istream &in, std::size_t limit) {
                 if (!w2.empty() && w2[0] == "end") break;
             }
             vh::emit("end", evs);
+            alarm(0);
             return;
         } else {
             head << "bad-op";
@@ -160,6 +333,7 @@ void run_case(std::istream &in, std::size_t limit) {
         poll();
         vh::emit(head.str(), evs);
     }
+    alarm(0);
 }
 
 // ---------------------------------------------------------------------------------------------
@@ -735,10 +909,11 @@ struct sq_adapter {
     };
     static Q *make(std::size_t) { return new Q(); }
 };
+template <typename T>
 struct slq_adapter {
-    using item = item_t;
+    using item = T;
     static constexpr bool limited = true;
-    using base = limited_queue<item_t, primitives::std_queue, primitives::std_queue, primitives::std_queue, sched_lock>;
+    using base = limited_queue<T, primitives::std_queue, primitives::std_queue, primitives::std_queue, sched_lock>;
     struct Q : base {
         using base::base;
         std::size_t nawait() const { return this->_awaiters.size(); }
@@ -747,6 +922,34 @@ struct slq_adapter {
     };
     static Q *make(std::size_t limit) { return new Q(limit); }
 };
+
+// `cothrow g n` in the scheduled kind: the pop is issued by a coroutine on the operation's thread; when it parks, the
+// coroutine is resumed by the thread that resolves the future (inside its `deliver`)
+template <typename Q, typename T, typename Rec>
+async<void> slq_thrower(Q &q, Rec *r, int g, int n, std::shared_ptr<bool> threw) {
+    std::string out;
+    bool got = false;
+    try {
+        ho_set(g, n);
+        future<T> f = q.pop();
+        ho_clear();
+        got = true;
+        T &v = co_await f;
+        out = "v:" + std::to_string(v.get());
+    } catch (const item_error &) {
+        ho_clear();
+        if (!got) { *threw = true; co_return; }
+        out = "itemerr";
+    } catch (const await_canceled_exception &) {
+        out = "canceled";
+    } catch (const test_exc &e) {
+        out = "exc:" + std::to_string(e.code);
+    } catch (...) {
+        out = "other";
+    }
+    r->out = out;
+    r->done = true;
+}
 
 template <typename A>
 void run_sched(std::istream &in, std::size_t limit) {
@@ -757,7 +960,7 @@ void run_sched(std::istream &in, std::size_t limit) {
     alarm(10);      // never expected to fire; a hang must not stall the whole check
     std::unique_ptr<Q> q(A::make(limit));
     g_counts = [&] { return std::pair<std::size_t, std::size_t>{q->nawait(), q->nblocked()}; };
-    struct prec { std::unique_ptr<future<T>> f; bool reported = false; };
+    struct prec { std::unique_ptr<future<T>> f; bool reported = false; bool coro = false, done = false; std::string out; };
     struct urec { std::unique_ptr<future<void>> f; bool reported = false; };
     std::deque<prec> pops;
     std::deque<urec> pushes;        // limited queue only: push returns a future
@@ -765,14 +968,14 @@ void run_sched(std::istream &in, std::size_t limit) {
     std::string line;
     auto poll = [&] {
         for (std::size_t i = 0; i < pops.size(); ++i)
-            if (!pops[i].reported && pops[i].f && pops[i].f->ready()) {
+            if (!pops[i].reported && (pops[i].coro ? pops[i].done : (pops[i].f && pops[i].f->ready()))) {
                 pops[i].reported = true;
-                evs.push_back("pop#" + std::to_string(i) + "=" + vh::outcome(*pops[i].f));
+                evs.push_back("pop#" + std::to_string(i) + "=" + (pops[i].coro ? pops[i].out : vh::outcome(*pops[i].f)));
             }
         for (std::size_t i = 0; i < pushes.size(); ++i)
             if (!pushes[i].reported && pushes[i].f && pushes[i].f->ready()) {
                 pushes[i].reported = true;
-                evs.push_back("push#" + std::to_string(i) + "=" + vh::outcome(*pushes[i].f));
+                evs.push_back("push#" + std::to_string(i) + "=" + lq_push_outcome(*pushes[i].f));
             }
     };
     auto regions = [&](sched::opt *o) { int d = o->regions - o->shown; o->shown = o->regions; return d; };
@@ -859,16 +1062,27 @@ void run_sched(std::istream &in, std::size_t limit) {
             break;
         } else if (w[0] == "push" && !std::is_void_v<T> && w.size() < 2) {
             head << "bad-op";
-        } else if (w[0] == "push") {
+        } else if (w[0] == "push" || (w[0] == "pushmv" && A::limited && w.size() > 2)) {
             int v = w.size() > 1 ? atoi(w[1].c_str()) : 0;
             (void)v;
             if constexpr (A::limited) {
+                // `pushmv v g [n]`: the hand-overs g .. g+n-1 of this call throw; the push id is used up either way
+                bool mv = w[0] == "pushmv";
+                int g = mv ? atoi(w[2].c_str()) : 0, n = mv ? (w.size() > 3 ? atoi(w[3].c_str()) : 1) : 0;
                 std::size_t id = pushes.size();
                 pushes.emplace_back();
                 urec *r = &pushes[id];
+                auto threw = std::make_shared<bool>(false);
                 run_op(hold, "push#" + std::to_string(id),
-                       [&q, r, v] { r->f.reset(new future<void>([&] { return q->push(v); })); },
-                       [r] { auto st = vh::outcome(*r->f); if (st != "pending") r->reported = true; return st; }, head);
+                       [&q, r, v, g, n, threw] {
+                           ho_arm a(g, n);
+                           try { r->f.reset(new future<void>([&] { return q->push(v); })); }
+                           catch (const item_error &) { *threw = true; }
+                       },
+                       [r, threw]() -> std::string {
+                           if (*threw) return "threw";
+                           auto st = lq_push_outcome(*r->f); if (st != "pending") r->reported = true; return st;
+                       }, head);
             } else {
                 auto res = std::make_shared<bool>(false);
                 run_op(hold, "push", [&q, res, v] {
@@ -876,8 +1090,14 @@ void run_sched(std::istream &in, std::size_t limit) {
                 }, bool_status(res), head);
             }
         } else if (w[0] == "pushthrow") {
-            if constexpr (std::is_void_v<T> || A::limited) {
+            if constexpr (std::is_void_v<T>) {
                 head << "bad-op";
+            } else if constexpr (A::limited) {
+                // no push id: the call never returns a future
+                auto res = std::make_shared<std::string>("nothrow");
+                run_op(hold, "pushthrow", [&q, res] {
+                    try { future<void> f([&] { return q->push(-1); }); (void)f.ready(); } catch (const item_error &) { *res = "threw"; }
+                }, [res] { return *res; }, head);
             } else {
                 auto res = std::make_shared<std::string>("nothrow");
                 run_op(hold, "pushthrow", [&q, res] {
@@ -892,33 +1112,60 @@ void run_sched(std::istream &in, std::size_t limit) {
                    [&q, r] { r->f.reset(new future<T>([&] { return q->pop(); })); },
                    [r] { auto st = vh::outcome(*r->f); if (st != "pending") r->reported = true; return st; }, head);
         } else if (w[0] == "popthrow") {
-            if constexpr (std::is_void_v<T> || A::limited) {
+            if constexpr (std::is_void_v<T>) {
                 head << "bad-op";
             } else {
                 // the pop id is used up whether or not the call throws (ids are given when the line is read)
+                // C09 (`sq`): the next hand-over throws; C10 (`slq`): `popthrow g [n]`, the hand-overs g .. g+n-1 of the call
+                int g = A::limited ? (w.size() > 1 ? atoi(w[1].c_str()) : 1) : 0;
+                int n = A::limited ? (w.size() > 2 ? atoi(w[2].c_str()) : 1) : 0;
                 std::size_t id = pops.size();
                 pops.emplace_back();
                 prec *r = &pops[id];
                 auto threw = std::make_shared<bool>(false);
                 run_op(hold, "pop#" + std::to_string(id),
-                       [&q, r, threw] {
+                       [&q, r, threw, g, n] {
                            try {
-                               g_throw_on_move = true;
+                               if (A::limited) ho_set(g, n); else g_throw_on_move = true;
                                r->f.reset(new future<T>([&] { return q->pop(); }));
                            } catch (const item_error &) { *threw = true; }
                            g_throw_on_move = false;
+                           ho_clear();
                        },
                        [r, threw]() -> std::string {
                            if (*threw) return "threw";
                            auto st = vh::outcome(*r->f); if (st != "pending") r->reported = true; return st;
                        }, head);
             }
-        } else if (w[0] == "upush" && w.size() > 1 && A::limited) {
+        } else if (w[0] == "cothrow" && A::limited) {
             if constexpr (A::limited) {
+                int g = w.size() > 1 ? atoi(w[1].c_str()) : 1, n = w.size() > 2 ? atoi(w[2].c_str()) : 1;
+                std::size_t id = pops.size();
+                pops.emplace_back();
+                prec *r = &pops[id];
+                r->coro = true;
+                auto threw = std::make_shared<bool>(false);
+                run_op(hold, "pop#" + std::to_string(id),
+                       [&q, r, threw, g, n] { slq_thrower<Q, T, prec>(*q, r, g, n, threw).detach(); },
+                       [r, threw]() -> std::string {
+                           if (*threw) return "threw";
+                           if (!r->done) return "pending";
+                           r->reported = true;
+                           return r->out;
+                       }, head);
+            }
+        } else if ((w[0] == "upush" || w[0] == "upushthrow") && w.size() > 1 && A::limited) {
+            if constexpr (A::limited) {
+                // `upushthrow c [g [n]]`: unblock_push during which the hand-overs g .. g+n-1 throw
                 int code = atoi(w[1].c_str());
-                auto res = std::make_shared<bool>(false);
-                run_op(hold, "upush", [&q, res, code] { *res = q->unblock_push(std::make_exception_ptr(test_exc(code))); },
-                       bool_status(res), head);
+                bool th = w[0] == "upushthrow";
+                int g = th ? (w.size() > 2 ? atoi(w[2].c_str()) : 1) : 0, n = th ? (w.size() > 3 ? atoi(w[3].c_str()) : 1) : 0;
+                auto res = std::make_shared<std::string>("0");
+                run_op(hold, "upush", [&q, res, code, g, n] {
+                    ho_arm a(g, n);
+                    try { *res = q->unblock_push(std::make_exception_ptr(test_exc(code))) ? "1" : "0"; }
+                    catch (const item_error &) { *res = "threw"; }
+                }, [res] { return *res; }, head);
             }
         } else if (w[0] == "upop" && w.size() > 1) {
             int code = atoi(w[1].c_str());
@@ -966,6 +1213,7 @@ int main() {
         else if (kind == "vq" && cfg == "nl") run_qcase<q_t<void, std_queue, std_queue, no_lock>, void>(std::cin);
         else if (kind == "vq" && cfg == "w1") run_qcase<q_t<void, std_queue, single_item_queue, no_lock>, void>(std::cin);
         else if (kind == "lq" && w.size() > 4 && w[4] == "nl") run_case<lq_nl_t, item_t, true>(std::cin, (std::size_t)atoi(w[3].c_str()));
+        else if (kind == "lq" && w.size() > 4 && w[4] == "cp") run_case<lq_cp_t, citem_t, true>(std::cin, (std::size_t)atoi(w[3].c_str()));
         else if (kind == "q") run_qcase<q_t<item_t>, item_t>(std::cin);
         else if (kind == "vq") run_qcase<q_t<void>, void>(std::cin);
         else if (kind == "sq") run_sched<sq_adapter<item_t>>(std::cin, 0);
@@ -973,7 +1221,8 @@ int main() {
         else if (kind == "mtq") run_mtcase(std::cin, false, w);
         else if (kind == "mtv") run_mtcase(std::cin, true, w);
         else if (kind == "lq") run_case<lq_t, item_t, true>(std::cin, (std::size_t)atoi(w[3].c_str()));
-        else if (kind == "slq") run_sched<slq_adapter>(std::cin, w.size() > 3 ? (std::size_t)atoi(w[3].c_str()) : 1);
+        else if (kind == "slq" && w.size() > 4 && w[4] == "cp") run_sched<slq_adapter<citem_t>>(std::cin, (std::size_t)atoi(w[3].c_str()));
+        else if (kind == "slq") run_sched<slq_adapter<item_t>>(std::cin, w.size() > 3 ? (std::size_t)atoi(w[3].c_str()) : 1);
         else std::cout << "bad-kind\n";
         std::cout.flush();
     }
